@@ -8,6 +8,7 @@ import (
 	"encoding/json"
 	"flag"
 	"fmt"
+	"github.com/form3tech-oss/f1/v2/internal/metrics"
 	"math/rand"
 	"os"
 	"sort"
@@ -81,6 +82,8 @@ func main() {
 		fmt.Fprintln(os.Stderr, "usage: drive <sub> [-out dir] [-tier quick|thorough] [-seed n] [-in file]; subs:", names)
 		os.Exit(2)
 	}
+	// what f1.New() does first: the process-wide metrics instance that T.Time records its stages into
+	metrics.Init(true)
 	sub := os.Args[1]
 	fs := flag.NewFlagSet(sub, flag.ExitOnError)
 	c := &ctx{extra: map[string]string{}}
